@@ -2,6 +2,7 @@ package hsim
 
 import (
 	"fmt"
+	"github.com/aukilabs/hagall-common/messages/vikjapb"
 	"sort"
 	"strings"
 	"time"
@@ -553,6 +554,7 @@ func (r *runner) runBlock(steps []Step) {
 		r.res.Triggers["block_answers_not_serializable:"+strings.Join(kinds, "+")]++
 		r.desync = true
 		r.doubleSuccess(reqs, kinds)
+		r.staleWinner(reqs, kinds, before)
 		for _, q := range reqs {
 			if q.closes || q.p == nil || q.p.RID == 0 || q.c.Ended() {
 				continue
@@ -591,6 +593,7 @@ func (r *runner) runBlock(steps []Step) {
 			}
 		}
 	}
+	r.staleWinner(reqs, kinds, before)
 	if best.diffs > 0 {
 		// The final state is not the result of any serial order (a check-then-act window in
 		// the server). No property quantified over schedules demands serializability of the
@@ -762,6 +765,7 @@ func (r *runner) annotateBlock(kinds []string, reqs []*blockReq, note string) {
 			joiners[q.c.Label] = true
 		}
 	}
+	cont := contended(reqs)
 	for i := range r.res.Violations {
 		v := &r.res.Violations[i]
 		if v.Step != r.stepIdx || strings.Contains(v.Detail, "concurrent block") {
@@ -773,6 +777,19 @@ func (r *runner) annotateBlock(kinds []string, reqs []*blockReq, note string) {
 			// the known stale-snapshot window: the change the view misses *was* relayed to the
 			// joiner, but ahead of the SESSION_STATE that then overwrote it
 			mark = " [observer joined during the block and was relayed a change ahead of its SESSION_STATE]"
+		}
+		if len(v.Keys) > 0 {
+			all := true
+			for _, k := range v.Keys {
+				if !cont[k] {
+					all = false
+				}
+			}
+			if all {
+				// the known change-then-relay window: every entry that differs was changed by two
+				// connections in this very block
+				mark += fmt.Sprintf(" [every differing entry %v was changed by two connections at the same instant]", v.Keys)
+			}
 		}
 		v.Detail = fmt.Sprintf("after concurrent block %v (%s): %s%s", kinds, note, v.Detail, mark)
 	}
@@ -793,6 +810,42 @@ func (r *runner) annotateBlock(kinds []string, reqs []*blockReq, note string) {
 	}
 }
 
+// contended: the state entries (component (type, entity), action entity/name) that requests of
+// at least two different connections of the block target.
+func contended(reqs []*blockReq) map[string]bool {
+	who := map[string]map[int]bool{}
+	note := func(k string, c int) {
+		if who[k] == nil {
+			who[k] = map[int]bool{}
+		}
+		who[k][c] = true
+	}
+	for _, q := range reqs {
+		if q.p == nil {
+			continue
+		}
+		switch a := q.p.Req.(type) {
+		case *hagallpb.EntityComponentAddRequest:
+			note(fmt.Sprintf("comp:%v", CKey{a.EntityComponentTypeId, a.EntityId}), q.c.ID)
+		case *hagallpb.EntityComponentDeleteRequest:
+			note(fmt.Sprintf("comp:%v", CKey{a.EntityComponentTypeId, a.EntityId}), q.c.ID)
+		case *hagallpb.EntityComponentUpdate:
+			note(fmt.Sprintf("comp:%v", CKey{a.EntityComponentTypeId, a.EntityId}), q.c.ID)
+		case *vikjapb.EntityActionRequest:
+			if ea := a.GetEntityAction(); ea != nil {
+				note(fmt.Sprintf("action:%d/%s", ea.EntityId, ea.Name), q.c.ID)
+			}
+		}
+	}
+	out := map[string]bool{}
+	for k, cs := range who {
+		if len(cs) >= 2 {
+			out[k] = true
+		}
+	}
+	return out
+}
+
 // relayBeforeState: in its current window the client received a relay of someone else's change
 // before the SESSION_STATE of its join.
 func (r *runner) relayBeforeState(label string) bool {
@@ -810,6 +863,68 @@ func (r *runner) relayBeforeState(label string) bool {
 		}
 	}
 	return false
+}
+
+// staleWinner: several actions for one (entity, name) were accepted in one block and what the
+// server keeps afterwards is older than one of them: the timestamp check and the store were not
+// one step (the last writer, not the latest timestamp, won). Only evaluated when nothing in the
+// block can remove actions.
+func (r *runner) staleWinner(reqs []*blockReq, kinds []string, before map[int]*MSession) {
+	type acc struct {
+		sec   int64
+		nanos int32
+		who   string
+	}
+	byKey := map[string][]acc{}
+	sessOf := map[string]string{}
+	for _, q := range reqs {
+		if q.closes || q.st.Op == "entity_delete" || q.st.Op == "join" || q.st.Op == "close" || q.st.Op == "switch" {
+			return
+		}
+		if q.p == nil || before[q.st.Conn] == nil {
+			continue
+		}
+		a, ok := q.p.Req.(*vikjapb.EntityActionRequest)
+		if !ok || a.GetEntityAction().GetTimestamp() == nil {
+			continue
+		}
+		if findByRID(q.c.Since(), q.p.RID, int32(vikjapb.MsgType_MSG_TYPE_VIKJA_ENTITY_ACTION_RESPONSE)) == nil {
+			continue
+		}
+		ea := a.EntityAction
+		k := fmt.Sprintf("%s|%d/%s", before[q.st.Conn].UUID, ea.EntityId, ea.Name)
+		sessOf[k] = before[q.st.Conn].UUID
+		byKey[k] = append(byKey[k], acc{ea.Timestamp.Seconds, ea.Timestamp.Nanos, q.c.Label})
+	}
+	var snap map[string]*MSession
+	for k, as := range byKey {
+		if len(as) < 2 {
+			continue
+		}
+		if snap == nil {
+			snap = r.serverSnapshot()
+		}
+		s := snap[sessOf[k]]
+		if s == nil {
+			continue
+		}
+		var e uint32
+		var n string
+		fmt.Sscanf(k[strings.Index(k, "|")+1:strings.LastIndex(k, "/")], "%d", &e)
+		n = k[strings.LastIndex(k, "/")+1:]
+		st, ok := s.Actions[e][n]
+		if !ok {
+			continue
+		}
+		for _, a := range as {
+			if tsLess(st.Sec, st.Nanos, a.sec, a.nanos) {
+				d := fmt.Sprintf("concurrent block %v: the server accepted action %d/%s with timestamp %d.%09d from %s, but keeps one with the older timestamp %d.%09d (timestamp check and store are not one step)", kinds, e, n, a.sec, a.nanos, a.who, st.Sec, st.Nanos)
+				r.v("C09", "block-stale-winner", "%s", d)
+				r.v("C16", "older-action-accepted", "%s", d)
+				break
+			}
+		}
+	}
 }
 
 // doubleSuccess: two requests of one block that cannot both succeed under any order did.
